@@ -187,6 +187,25 @@ pub fn hand(b: &mut Builder) {
     let s = b.strukt("HDenyCustom", Some(RenameAll::Camel), Deny::Custom(id), Validate::No, fields);
     b.program("struct_deny_custom", s);
 
+    // a wide container (more than 20 fields) with skipped fields in the middle of the declaration
+    let mut wide: Vec<FieldDef> = vec![];
+    for i in 0..24 {
+        let mut f = b.f(&format!("w{}{}", (b'a' + (i / 6) as u8) as char, ["one", "two", "three", "four", "five", "six"][i % 6]));
+        if i == 3 || i == 11 || i == 12 {
+            f.skip = true;
+        }
+        if i == 7 {
+            f.default = Dflt::Trait;
+        }
+        wide.push(f);
+    }
+    let s = b.strukt("HWide", None, Deny::Default, Validate::No, wide.clone());
+    b.program("struct_wide_deny", s);
+    let id = b.fid();
+    wide.reverse();
+    let s = b.strukt("HWideCustom", Some(RenameAll::Camel), Deny::Custom(id), Validate::No, wide);
+    b.program("struct_wide_deny_custom", s);
+
     // defaults, skip, missing_field_error, Option
     let mut d1 = b.f("with_default");
     d1.default = Dflt::Trait;
@@ -488,10 +507,11 @@ fn gen_desc(b: &mut Builder, rng: &mut Rng, depth: usize, named_from: usize) -> 
 }
 
 fn gen_fields(b: &mut Builder, rng: &mut Rng, rename_all: Option<RenameAll>, named_from: usize, tag: Option<&str>) -> Vec<FieldDef> {
-    let n = rng.below(7);
+    // mostly small containers; now and then a wide one (sorting / pairing code paths differ)
+    let n = if rng.chance(1, 12) { 21 + rng.below(8) } else { rng.below(7) };
     let mut fields: Vec<FieldDef> = vec![];
     let mut attempts = 0;
-    while fields.len() < n && attempts < 50 {
+    while fields.len() < n && attempts < 400 {
         attempts += 1;
         let ident = gen_ident(rng);
         if fields.iter().any(|f| f.ident == ident) {
